@@ -77,12 +77,16 @@ func (esp *EntityStreamParser) ParseTransaction(reader io.Reader) (*Transaction,
 		return nil, errors.New("parsing error: Unable to decode context " + err.Error())
 	}
 
-	for k, v := range context["namespaces"].(map[string]interface{}) {
-		esp.localNamespaces[k] = v.(string)
+	err = esp.setLocalNamespaces(context)
+	if err != nil {
+		return nil, err
 	}
 
 	for {
-		t, _ = decoder.Token()
+		t, err = decoder.Token()
+		if err != nil {
+			return nil, errors.New("parsing error: Unable to read next token " + err.Error())
+		}
 		delimVal, isDelim := t.(json.Delim)
 		if isDelim {
 			if delimVal.String() == "}" {
@@ -91,7 +95,10 @@ func (esp *EntityStreamParser) ParseTransaction(reader io.Reader) (*Transaction,
 				return nil, errors.New("parsing error: Unexpected delimiter: " + delimVal.String())
 			}
 		} else {
-			datasetName := t.(string)
+			datasetName, ok := t.(string)
+			if !ok {
+				return nil, fmt.Errorf("parsing error: Expected dataset name but got: %v", t)
+			}
 
 			// read [
 			t, err = decoder.Token()
@@ -154,8 +161,9 @@ func (esp *EntityStreamParser) ParseStream(reader io.Reader, emitEntity func(*En
 	}
 
 	if context["id"] == "@context" {
-		for k, v := range context["namespaces"].(map[string]interface{}) {
-			esp.localNamespaces[k] = v.(string)
+		err = esp.setLocalNamespaces(context)
+		if err != nil {
+			return err
 		}
 	} else {
 		return errors.New("first entity in array must be a context")
@@ -198,6 +206,22 @@ func (esp *EntityStreamParser) ParseStream(reader io.Reader, emitEntity func(*En
 	return nil
 }
 
+// setLocalNamespaces reads the prefix to expansion mappings of a decoded context object
+func (esp *EntityStreamParser) setLocalNamespaces(context map[string]interface{}) error {
+	namespaces, ok := context["namespaces"].(map[string]interface{})
+	if !ok {
+		return errors.New("parsing error: context must contain a namespaces object")
+	}
+	for k, v := range namespaces {
+		expansion, ok := v.(string)
+		if !ok {
+			return errors.New("parsing error: expansion of namespace prefix " + k + " must be a string")
+		}
+		esp.localNamespaces[k] = expansion
+	}
+	return nil
+}
+
 func (esp *EntityStreamParser) parseEntity(decoder *json.Decoder) (*Entity, error) {
 	e := &Entity{}
 	e.Properties = make(map[string]interface{})
@@ -222,11 +246,16 @@ func (esp *EntityStreamParser) parseEntity(decoder *json.Decoder) (*Entity, erro
 					return nil, errors.New("unable to read token of id value " + err2.Error())
 				}
 
-				if val.(string) == "@continuation" {
+				id, ok := val.(string)
+				if !ok {
+					return nil, fmt.Errorf("id value must be a string but got: %v", val)
+				}
+
+				if id == "@continuation" {
 					e.ID = "@continuation"
 					isContinuation = true
 				} else {
-					nsID, err2 := esp.store.GetNamespacedIdentifier(val.(string), esp.localNamespaces)
+					nsID, err2 := esp.store.GetNamespacedIdentifier(id, esp.localNamespaces)
 					if err2 != nil {
 						return nil, err2
 					}
@@ -237,14 +266,22 @@ func (esp *EntityStreamParser) parseEntity(decoder *json.Decoder) (*Entity, erro
 				if err2 != nil {
 					return nil, errors.New("unable to read token of recorded value " + err2.Error())
 				}
-				e.Recorded = uint64(val.(float64))
+				recorded, ok := val.(float64)
+				if !ok {
+					return nil, fmt.Errorf("recorded value must be a number but got: %v", val)
+				}
+				e.Recorded = uint64(recorded)
 
 			case "deleted":
 				val, err2 := decoder.Token()
 				if err2 != nil {
 					return nil, errors.New("unable to read token of deleted value " + err2.Error())
 				}
-				e.IsDeleted = val.(bool)
+				deleted, ok := val.(bool)
+				if !ok {
+					return nil, fmt.Errorf("deleted value must be a boolean but got: %v", val)
+				}
+				e.IsDeleted = deleted
 
 			case "props":
 				e.Properties, err = esp.parseProperties(decoder)
